@@ -345,6 +345,68 @@ static void oracleC07(W& w, const CaseSpec& c, const Built& b, const std::vector
 }
 
 // ---------------------------------------------------------------------------------------------
+// C07 oracle for batches that contain packets with a ZERO-LENGTH payload: such a packet has no byte to deliver, so it owes the wire
+// nothing; everything else of C07 stays as stated (every frame within the limits, at least one complete message, tiling, padding, the
+// bytes of the other packets exactly once and in order). Keys carry their own prefix so that a finding here never hides one elsewhere.
+static void oracleC07Zero(W& w, const CaseSpec& c, const Built& b, const std::vector<Bytes>& frames)
+{
+    const std::string z = "zero-length-payload:";
+    size_t pi = 0;
+    uint32_t po = 0;
+    auto skipEmpty = [&] {
+        while (po == 0 && pi < b.eff.size() && b.eff[pi].len == 0)
+            ++pi;
+    };
+    for (size_t fi = 0; fi < frames.size(); ++fi)
+    {
+        const Bytes& f = frames[fi];
+        if (f.size() < c.mn)
+            w.fail(z + "frame-size-below-min", fmt("frame %zu has %zu bytes, minimum is %zu", fi, f.size(), c.mn));
+        if (f.size() > c.mx)
+            w.fail(z + "frame-size-above-max", fmt("frame %zu has %zu bytes, maximum is %zu", fi, f.size(), c.mx));
+        ref::Walked wk = ref::walk(f);
+        if (!wk.hdrOk)
+        {
+            w.fail(z + "frame-shorter-than-header", fmt("frame %zu has %zu bytes", fi, f.size()));
+            continue;
+        }
+        if (wk.msgs.empty())
+            w.fail(z + "frame-without-message", fmt("frame %zu of %zu (%zu bytes) carries no complete message", fi, frames.size(), f.size()));
+        if (wk.tailTruncatedMsg)
+            w.fail(z + "messages-do-not-tile", fmt("frame %zu: a message header at offset %zu declares more payload than the frame holds", fi, wk.used));
+        else if (!wk.tailZero)
+            w.fail(z + "padding-nonzero", fmt("frame %zu: bytes after offset %zu are not all zero", fi, wk.used));
+        else if (f.size() != std::max(wk.used, c.mn))
+            w.fail(z + "padding-length", fmt("frame %zu: %zu bytes used, min %zu, but frame has %zu bytes", fi, wk.used, c.mn, f.size()));
+        for (auto& m : wk.msgs)
+        {
+            if (m.h.plen == 0)
+                continue;   // a message of length 0 carries no payload byte: neither owed nor forbidden here
+            skipEmpty();
+            if (pi >= b.eff.size() || po + m.h.plen > b.eff[pi].len)
+            {
+                w.fail(z + "payload-bytes-extra", fmt("frame %zu carries %u bytes that no packet of the batch owes (packet %zu, offset %u)", fi, m.h.plen, pi, po));
+                return;
+            }
+            const PSpec& s = b.eff[pi];
+            if (memcmp(&f[m.payOff], &b.bytes[pi][po], m.h.plen) != 0)
+                w.fail(z + "payload-bytes-mismatch", fmt("frame %zu: message bytes differ from packet %zu payload[%u..%u)", fi, pi, po, po + m.h.plen));
+            if (m.h.ts != s.ts || m.h.ptype != s.pt || wk.fh.msgType != s.mt)
+                w.fail(z + "message-header-mismatch", fmt("frame %zu packet %zu: timestamp, payload type or message type differ from the packet's", fi, pi));
+            po += m.h.plen;
+            if (po == s.len)
+            {
+                ++pi;
+                po = 0;
+            }
+        }
+    }
+    skipEmpty();
+    if (pi != b.eff.size())
+        w.fail(z + "payload-bytes-missing", fmt("frames end inside packet %zu at offset %u (batch has %zu packets)", pi, po, b.eff.size()));
+}
+
+// ---------------------------------------------------------------------------------------------
 // C08 oracle: parsed structure == plan
 struct ParsedFrame
 {
@@ -641,7 +703,12 @@ static void judge(W& w, const std::string& prop, const CaseSpec& c)
     w.add(mc::C_TRACES, 1);
     w.add(mc::C_STATES, frames.size() + 1);
     w.outcome(mc::mix(structureHash(frames), c.b.size()));
-    if (prop == "C07")
+    bool hasZero = false;
+    for (auto& ps : b.eff)
+        hasZero = hasZero || ps.len == 0;
+    if (prop == "C07" && hasZero)
+        oracleC07Zero(w, c, b, frames);
+    else if (prop == "C07")
         oracleC07(w, c, b, frames);
     else if (prop == "C08")
         oracleC08(w, c, b, frames);
@@ -791,6 +858,9 @@ static Domain makeDomain(const std::string& prop, bool thorough)
             d.tasks.push_back({'S', 0, 0, 0, k});
     if (prop == "C07")
         d.tasks.push_back({'E', 0, 0, 0, 0});
+    if (prop == "C07")
+        for (int f = 0; f < 5; ++f)
+            d.tasks.push_back({'Z', 0, 0, 0, f});
     return d;
 }
 
@@ -1060,6 +1130,42 @@ static void runTask(W& w, const std::string& prop, const Domain& d, const Task& 
                 c.mn = 0; c.mx = mx;
                 c.b = {gen(1, l, 0)};
                 exec();
+            }
+    }
+    else if (t.part == 'Z')
+    {
+        // batches of 1..3 packets over {zero-length data, zero-length status, small data, small status, segmenting data} with at least
+        // one zero-length payload, first packet = t.first
+        const size_t cx[4][2] = {{0, 1500}, {64, 1500}, {0, 64}, {64, 64}};
+        for (auto& x : cx)
+            for (int n = 1; n <= 3; ++n)
+            {
+                int total = 1;
+                for (int i = 1; i < n; ++i)
+                    total *= 5;
+                for (int rest = 0; rest < total; ++rest)
+                {
+                    int sym[3] = {t.first, rest % 5, (rest / 5) % 5};
+                    bool z = false;
+                    c = CaseSpec();
+                    c.mn = x[0]; c.mx = x[1];
+                    for (int i = 0; i < n; ++i)
+                    {
+                        const int k = sym[i];
+                        z = z || k < 2;
+                        const uint32_t len = k < 2 ? 0 : (k < 4 ? 5 : (uint32_t) (2 * (c.mx - 24) + 1));
+                        c.b.push_back(gen(k == 1 || k == 3 ? 3 : 1, len, i));
+                    }
+                    if (!z)
+                        continue;
+                    for (int api : {0, 2, 1})
+                    {
+                        if (api == 1 && n != 1)
+                            continue;
+                        c.api = api;
+                        exec();
+                    }
+                }
             }
     }
     else if (t.part == 'E')
@@ -1504,6 +1610,7 @@ int main(int argc, char** argv)
             run.round(name, ts.size(), [&, ts](W& w, uint64_t o) { runTask(w, prop, dom, ts[o]); });
         };
         roundOf("empty batch", [](const Task& t) { return t.part == 'E'; });
+        roundOf("batches with zero-length payloads", [](const Task& t) { return t.part == 'Z'; });
         for (int n = 1; n <= (thorough ? 4 : 3); ++n)
             roundOf("boundary lengths, batch size " + std::to_string(n), [n](const Task& t) { return t.part == 'A' && t.n == n; });
         roundOf("typed prototypes (singles, ordered pairs, triples) x 5 contexts x encode overloads", [](const Task& t) { return t.part == 'B'; });
